@@ -14,7 +14,7 @@ import (
 // predicts each round's outcome exactly. This unit judges the failure aspect.
 func TestC04_Rounds(t *testing.T) {
 	pbt.Run(t, pbt.Config{Prop: "C04", Unit: "TestC04_Rounds", TrackCurrent: true,
-		Rule: "1..2 publishers, one subscriber (unsegmented or segments of 1..3, own hook or the library's general hook, MaxAsyncConcurrency unset/1/2, plain or discovery transport), two listeners; 2..8 rounds, each publishing 0..3 ads and then running exactly one operation to exact quiescence: announcement, explicit sync, resync (WithAdsResync), sync with an explicit older stop CID (WithStopAdCid), announcement whose sender information has only a non-HTTP address or no address, announcement or explicit sync during which the publisher answers 500 for one block still to be fetched. Oracle (reference model of latest-sync per publisher): a failed round leaves latest-sync where it was, emits no success notification, an announce-triggered one exactly one error notification for the announced CID (an explicit one returns the error); every later round behaves exactly as the model predicts (a head whose sync failed can be announced again, later syncs of any publisher complete). Non-trivial: at least one round failed as designed; distinct by case.",
+		Rule: "1..2 publishers, one subscriber (unsegmented or segments of 1..3, own hook or the library's general hook, MaxAsyncConcurrency unset/1/2, plain or discovery transport), two listeners; 2..8 rounds, each publishing 0..3 ads and then running exactly one operation to exact quiescence: announcement, explicit sync (the publisher named by the AddrInfo's ID or only by the /p2p component of its addresses), resync (WithAdsResync), sync with an explicit older stop CID (WithStopAdCid), announcement whose sender information has only a non-HTTP address or no address, announcement or explicit sync during which the publisher answers 500 for one block still to be fetched. Oracle (reference model of latest-sync per publisher): a failed round leaves latest-sync where it was, emits no success notification, an announce-triggered one exactly one error notification for the announced CID (an explicit one returns the error); every later round behaves exactly as the model predicts (a head whose sync failed can be announced again, later syncs of any publisher complete). Non-trivial: at least one round failed as designed; distinct by case.",
 	}, world.GenRounds, func(c world.RoundsCase) (res pbt.Result) {
 		var rr world.RoundsResult
 		defer func() {
